@@ -217,7 +217,7 @@ pub async fn timed_client(c: &mut Client, sc: &Scenario, plan: SegPlan, tl: Arc<
                 let now = c.now_ms();
                 let pol = sc.echo.get(ka_count).or(sc.echo.last()).cloned().unwrap_or(Echo::Prompt);
                 ka_count += 1;
-                let mut echo_at = |sched: &mut Sched, at: u64, eid: u64| {
+                let echo_at = |sched: &mut Sched, at: u64, eid: u64| {
                     tl.lock().unwrap().echoes.push((at, eid));
                     sched.schedule(now, at, "Echo", Pkt::CfgKeepAliveSb { id: eid }.frame());
                 };
